@@ -217,14 +217,17 @@ func TestVerifC19Local(t *testing.T) {
 			vh19Observe(t, out, 0, root, names, false, 0, cnt)
 		}
 		// remote: count is a byte budget, clamped by msize - 11
-		msizes := []uint32{uint32(maxEnt) + 11, 512, 4096, 65536}
+		msizes := []uint32{uint32(maxEnt) + 11, 512, 4096, 8192, 65536}
+		if !vhfsThorough() {
+			msizes = []uint32{uint32(maxEnt) + 11, 4096, 8192}
+		}
 		for _, ms := range msizes {
 			if ms < 300 {
 				ms = 300 // NewClient refuses an msize that cannot hold the largest fixed-size message
 			}
 			cs := []uint32{uint32(maxEnt), 2*uint32(maxEnt) - 1, 1000, ms - 11, ms, 1 << 20, uint32(maxEnt) - 1, 0}
 			if !vhfsThorough() {
-				cs = []uint32{uint32(maxEnt), 2*uint32(maxEnt) - 1, ms - 11, 1 << 20, uint32(maxEnt) - 1}
+				cs = []uint32{uint32(maxEnt), 2*uint32(maxEnt) - 1, ms - 11, ms + 100, 1 << 20, uint32(maxEnt) - 1}
 			}
 			if c.n > 400 {
 				cs = []uint32{uint32(maxEnt), 4000, 1 << 20}
